@@ -381,6 +381,7 @@ def to_line(sc, mode="send"):
     acts = " ; ".join(
         f"pre={script_line(a['pre'])} ps={script_line(a['ps'])} stop={script_line(a['stop'])} "
         f"sup={('tdef' if a.get('tdef') else 'def') if a['sup'] is None else script_line(a['sup'])} link={'-' if a['link'] is None else a['link']}"
+        + (" boom=y" if a.get("boom") else "")
         for a in sc["actors"])
     msgs = " ; ".join(f"{m}={script_line(s)}" for m, s in sorted(sc["msgs"].items()))
     ops = " ; ".join(op_line(o) for o in sc["ops"])
@@ -418,6 +419,8 @@ def op_coq(o, mode="send"):
         # spawn_linked_remote is not an instant spawn: the engine polls its future once at the op
         # (cell, Starting, pre_start up to its first suspension point)
         return f"DL (LSpawn {o[1]}); DL (LPoll {o[1]} {FUEL})"
+    if k == "sends":
+        return f"DL (LSend {o[1]} {o[2]})"   # the same message in wire form (ActorCell::send_serialized)
     if k == "sendn":
         return ""       # rejected by box_message (no wire format for a remote pid): not a model step
     return {"spawn": lambda: f"DL (LSpawn {o[1]})", "send": lambda: f"DL (LSend {o[1]} {o[2]})",
@@ -467,13 +470,60 @@ def links_only_coq(sc, true_links=False):
     return "[" + "; ".join(onat(a["link"] if true_links else olink(sc, a)) for a in sc["actors"]) + "]"
 
 
-def prep_impl(sc, it):
+def sprinkle_sends(sc, rng, p=0.3):
+    """a share of the driver's sends is delivered in wire form (`sends`: ActorCell::send_serialized, the path of a
+    message from another node; a local actor decodes it in handle_message, then the same handler runs). Same
+    model step (LSend).  Seed C01-7: a handler error on that path was swallowed like a decode failure."""
+    sc["ops"] = [("sends", o[1], o[2]) if o[0] == "send" and rng.random() < p else o for o in sc["ops"]]
+    return sc
+
+
+def gen_boom(rng, remote=False):
+    """The actor's State has a destructor that panics when the RUNTIME drops the final state (engine `boom=y`):
+    an unsupervised actor exits gracefully (its terminal event, carrying the state, is dropped inside the exit
+    cleanup) or through a failing handler (the state dies with the task); or the same child under a living
+    supervisor with its own handler (graceful: the harness takes the state out of the event; failure: as above).
+    Whatever the destructor does, the exit cleanup must complete: status Stopped at teardown, supervisor told
+    (seed C06-8: cleanup disarmed itself up-front and stayed half-done when the drop unwound it).
+    Kept to this family: a state left in the queue of a supervisor that dies unread panics in THAT actor's task,
+    which is the user's destructor's doing, not the runtime's.  remote: no root-supervised boom actor (the
+    harness root would drop the event inside its own handler)."""
+    n = 2 if remote else rng.choice([1, 2])
+    actors = []
+    if n == 2:
+        actors.append({"pre": ([], ("ok",)), "ps": ([], ("ok",)), "stop": ([("t",)], ("ok",)),
+                       "sup": ([("t",)] * rng.choice([1, 2]), ("ok",)), "link": None})
+    victim = n - 1
+    actors.append({"pre": ([("t",)] * rng.choice([0, 1]), ("ok",)), "ps": ([], ("ok",)),
+                   "stop": ([("t",)] * rng.choice([0, 1, 2]), ("ok",)), "sup": None,
+                   "link": 0 if n == 2 else None, "boom": True})
+    bad = (rng.choice(["e", "f", "p", "q", "z"]), rng.choice([5, 6, 7]))
+    msgs = {1: ([("t",)], bad), 2: ([("t",)], ("ok",)), 3: ([], ("ok",)), 4: ([("t",), ("t",)], ("ok",))}
+    ops = []
+    for i in range(n):
+        ops += [("spawn", i), ("settle",)]
+    for _ in range(rng.choice([0, 1, 2])):
+        ops.append((rng.choice(["send", "sends"]), victim, rng.choice([2, 3, 4])))
+    ops.append(("settle",))
+    ops.append(rng.choice([("stop", victim, None), ("stop", victim, 10), ("drain", victim),
+                           ("send", victim, 1), ("sends", victim, 1)]))
+    ops.append(("settle",))
+    if n == 2 and rng.random() < 0.5:
+        ops += [("send", 0, 2), ("settle",)]
+    return {"actors": actors, "msgs": msgs, "ops": ops}
+
+
+def has_boom(sc):
+    return any(a.get("boom") for a in sc["actors"])
+
+
+def prep_impl(sc, it, join_panic=()):
     """sup=tdef actors: the default handler's `myself.stop(None)` cannot be logged; the lifecycle
     recogniser wants a graceful cause before post_stop, so a `TStopReq i None` is put right in front of
     `TEnter i PostStop` when no stop / drain of i was logged (whether the default handler stopped for the
     right events is decided by the view comparison with the model, not by this)"""
     td = [i for i in range(len(sc["actors"])) if is_tdef(sc, i)]
-    if not td:
+    if not td and not join_panic:
         return it
     tr = parse_term(re.sub(r"\(\*.*?\*\)", "", it))
     out, graced = [], set()
@@ -484,6 +534,10 @@ def prep_impl(sc, it):
             out.append(("TStopReq", e[1], "None"))
             graced.add(e[1])
         out.append(e)
+    # boom=y scenarios: a join handle that completed carrying the panic of the user's State destructor DID
+    # complete (C04 speaks of panics in callbacks; a destructor is none) - for the settled oracles it is a join
+    for c in join_panic:
+        out.append(("TJoin", c))
     return show_term(out)
 
 
@@ -530,7 +584,7 @@ OWN = {"TEnter", "TTick", "TPark", "TWake", "TExit", "TCancel", "TAborted"}
 LATE = {"TSpawnRet", "TJoin"}   # logged by harness tasks that observe a JoinHandle: position not determined
 
 
-def per_actor(trace, n, hide_sup=()):
+def per_actor(trace, n, hide_sup=(), hide_join=()):
     """each actor's own callback events, in order (cross-actor order is scheduler-dependent),
     followed by the sorted results observed through join handles.
     hide_sup: actors whose supervision-handler events are left out (sup=tdef: unobservable)"""
@@ -539,6 +593,8 @@ def per_actor(trace, n, hide_sup=()):
     for e in trace:
         if isinstance(e, tuple) and isinstance(e[1], int) and e[1] in v:
             if e[1] in hide_sup and e[0] in ("TEnter", "TExit", "TCancel") and isinstance(e[2], tuple) and e[2][0] == "Sup":
+                continue
+            if e[1] in hide_join and e[0] == "TJoin":
                 continue
             if e[0] in OWN:
                 v[e[1]].append(e)
@@ -619,7 +675,10 @@ def shrink(chk, build, sc, oracle_fn, accept, rounds=25, mode="send"):
         if not vs:
             break
         impl = run_harness(build, "eng_world", [to_line(v, mode) for v in vs], shards=8)
-        exprs = [oracle_fn(len(v["actors"]), links_coq(v, mode), prep_impl(v, it)) for v, it in zip(vs, impl)]
+        def _jp(v, it):
+            m = re.search(r"\(\* JOIN-PANIC ([\d ]+)\*\)", it)
+            return [int(x) for x in m.group(1).split()] if (m and has_boom(v)) else ()
+        exprs = [oracle_fn(len(v["actors"]), links_coq(v, mode), prep_impl(v, it, _jp(v, it))) for v, it in zip(vs, impl)]
         res = coq_eval(chk.prop + "_shrink", IMPORTS, exprs, scope="nat_scope")
         nxt = None
         for v, r in zip(vs, res):
@@ -666,7 +725,15 @@ def compare_build(chk, scs, build, tag, oracle_fn, accept, what, distinct, mode=
         if m:
             bad_state[k] = m.group(1)
             impl[k] = it[:m.start()].rstrip()
-    oimpl = [prep_impl(sc, it) for sc, it in zip(scs, impl)]   # what the trace oracles read
+    # ... and join handles that completed with a panic
+    join_panic = {}
+    for k, it in enumerate(impl):
+        m = re.search(r"\(\* JOIN-PANIC ([\d ]+)\*\)", it)
+        if m:
+            join_panic[k] = [int(x) for x in m.group(1).split()]
+            impl[k] = it[:m.start()].rstrip()
+    oimpl = [prep_impl(sc, it, join_panic.get(k, ()) if has_boom(sc) else ())
+             for k, (sc, it) in enumerate(zip(scs, impl))]   # what the trace oracles read
     exprs = []
     with_model = [True for sc in scs]
     for sc, it, wm in zip(scs, oimpl, with_model):
@@ -699,8 +766,19 @@ def compare_build(chk, scs, build, tag, oracle_fn, accept, what, distinct, mode=
         for o in sc["ops"]:
             chk.count(pre + "op." + o[0])
         hide = {i for i in range(n) if is_tdef(sc, i)}
-        vi = per_actor(itr, n, hide)
+        # boom=y: whether the join handle of an actor whose State destructor panics completes normally or with
+        # that panic is not compared (it completes; the status check at teardown stays)
+        hjoin = ({i for i in range(n) if sc["actors"][i].get("boom")} | set(join_panic.get(idx, ()))) if has_boom(sc) else set()
+        vi = per_actor(itr, n, hide, hjoin)
         desc = {"scenario": to_line(sc, mode), "impl_trace": it}
+        if idx in join_panic and not has_boom(sc):
+            desc["join_handle_panicked"] = join_panic[idx]
+            chk.violation(f"the join handles of actors {join_panic[idx]} completed with a panic",
+                          f"{chk.prop}: a panic escaped the actor task: the join handle of actors {join_panic[idx]} completed with a JoinError (panic); "
+                          f"no user code outside the callbacks panics in this scenario\n"
+                          + json.dumps(desc, indent=1) + f"\nbuild: {tag}" + "\nreplay: echo '<scenario>' | harness/target/debug/eng_world\n",
+                          failing_input=(chk.prop == "C04"))
+            continue
         if idx in bad_state:
             desc["bad_state"] = bad_state[idx]
             chk.violation("a graceful ActorTerminated carried a state that is not the subject's final state",
@@ -742,7 +820,7 @@ def compare_build(chk, scs, build, tag, oracle_fn, accept, what, distinct, mode=
             continue
         if local:
             chk.count(pre + ("model_compared_linked" if is_linked(sc) else "model_compared_unlinked"))
-        vs = [per_actor(m, n, hide) for m in models]
+        vs = [per_actor(m, n, hide, hjoin) for m in models]
         v1 = vs[0]
         if icomplete is False:
             # the "at least once" oracle rejects the implementation's trace: which model run is "the same run"?
@@ -800,6 +878,8 @@ def gen_local(rng, k, focus):
         sc = gen_backlog_then_sup(rng)
     elif k % 20 == 9:
         sc = gen_request_during_post_start(rng)
+    elif k % 20 == 16:
+        sc = gen_wire_handler_fails(rng)
     elif k % 5 < 3:
         sc = gen_scenario(rng, focus if k % 2 else "mixed", link_p=0.0)
     elif k % 5 == 3:
@@ -886,6 +966,37 @@ def gen_sendn_linked(rng):
     return {"actors": actors, "msgs": msgs, "ops": ops}
 
 
+def gen_wire_handler_fails(rng):
+    """A message delivered in WIRE form (`sends`: ActorCell::send_serialized, what a message from another node
+    looks like) whose handler fails (Err / panic of any kind), with further messages queued behind it and a
+    stop / drain afterwards: the failure ends the actor exactly like one of a typed message - no later handler,
+    no post_stop, ActorFailed to the supervisor (seed C01-7: the wire path logged-and-dropped the handler's
+    error together with decode errors)."""
+    n = rng.choice([1, 2, 2])
+    actors = [{"pre": ([], ("ok",)), "ps": ([], ("ok",)), "stop": ([("t",)], ("ok",)),
+               "sup": ([("t",)], ("ok",)) if n > 1 else None, "link": None}]
+    for i in range(1, n):
+        actors.append({"pre": ([], ("ok",)), "ps": ([("t",)] * rng.choice([0, 1]), ("ok",)),
+                       "stop": ([("t",)], ("ok",)), "sup": None, "link": 0})
+    victim = n - 1
+    bad = (rng.choice(["e", "f", "p", "q", "z"]), rng.choice([5, 6, 7]))
+    msgs = {1: ([("t",)] * rng.choice([0, 1, 2]), bad), 2: ([("t",)], ("ok",)), 3: ([], ("ok",)), 4: ([("t",), ("t",)], ("ok",))}
+    ops = []
+    for i in range(n):
+        ops += [("spawn", i), ("settle",)]
+    if rng.random() < 0.5:
+        ops += [(rng.choice(["send", "sends"]), victim, rng.choice([2, 3, 4])), ("settle",)]
+    ops.append(("sends", victim, 1))
+    for _ in range(rng.choice([1, 2, 3])):
+        ops.append((rng.choice(["send", "sends"]), victim, rng.choice([2, 3, 4])))
+        if rng.random() < 0.3:
+            ops.append(("settle",))
+    ops.append(("settle",))
+    ops.append(rng.choice([("stop", victim, None), ("stop", victim, 10), ("drain", victim)]))
+    ops.append(("settle",))
+    return {"actors": actors, "msgs": msgs, "ops": ops}
+
+
 def gen_remote(rng, k, focus):
     """scenarios for mode remote-shim (every actor has a remote ActorId and gets its messages through
     handle_serialized): the families of the Send mode except `spawnx`, gen_kill_parked_handler (1 in 10),
@@ -898,6 +1009,10 @@ def gen_remote(rng, k, focus):
         sc = gen_kill_parked_handler(rng)
     elif k % 20 == 6:
         sc = gen_sendn_linked(rng)
+    elif k % 20 == 9:
+        sc = gen_wire_handler_fails(rng)
+    elif k % 20 == 17:
+        sc = gen_boom(rng, remote=True)
     elif k % 20 == 13:
         sc = gen_fail_with_pending_stop(rng)
     elif k % 20 == 3:
@@ -952,6 +1067,10 @@ def run_loop_check(chk, oracle_fn, focus, what, accept=lambda o: o == "true", co
             scs.append(gen_abort_before_first_poll(chk.rng))
         elif k % 40 == 29:
             scs.append(gen_request_during_post_start(chk.rng))
+        elif k % 20 == 9:
+            scs.append(gen_wire_handler_fails(chk.rng))
+        elif k % 20 == 11:
+            scs.append(gen_boom(chk.rng))
         elif k % 8 == 7:
             scs.append(gen_abort_in_post_stop(chk.rng))
         elif k % 5 == 4:
@@ -970,6 +1089,8 @@ def run_loop_check(chk, oracle_fn, focus, what, accept=lambda o: o == "true", co
     for l in [scs[ncorpus_send:]] + [v[ncorpus_l[m]:] for m, v in lscs.items()]:
         for sc in l:
             maybe_tdef(sc, chk.rng)
+            sprinkle_sends(sc, chk.rng)
+
 
     def norm(l):
         l = json.loads(json.dumps(l))  # normalise tuples to lists
